@@ -229,6 +229,12 @@ class SimpleDictDocument(DictDocument):
             indexes = deque(RE_HTTP_ARRAY_INDEX.findall(orig_k))
 
             for pkey in member.path[:-1]:
+                if isinstance(cinst, list):
+                    # an array directly inside an array: this notation has no
+                    # way of addressing its items
+                    raise ValidationError(orig_k,
+                                  "%r: Arrays of arrays are not supported here")
+
                 nidx = 0
                 ncls, ninst = ctype_info[pkey], getattr(cinst, pkey, None)
                 nattrs = self.get_cls_attrs(ncls)
@@ -285,6 +291,10 @@ class SimpleDictDocument(DictDocument):
                 cfreq_key = cfreq_key + (ncls, nidx)
                 idx = nidx
                 ctype_info = ncls.get_flat_type_info(ncls)
+
+            if isinstance(cinst, list):
+                raise ValidationError(orig_k,
+                                  "%r: Arrays of arrays are not supported here")
 
             frequencies[cfreq_key][member.path[-1]] += len(value)
 
